@@ -652,6 +652,27 @@ TOLERANCE_TABLE = {
 }
 
 
+def _is_flag_arithmetic(ctx, b, blk):
+    """The i32 a switch tests is produced only by the flag helpers of src/flags.rs (bits(), access_mode()): it is a set
+    of open-flag bits and cannot hold an errno."""
+    d = Operand(blk.term.raw["d"])
+    if d.place is None:
+        return False
+    os_ = ctx.tracer.origins(b, blk.idx, len(blk.stmts), d.place)
+    if not os_:
+        return False
+    for o in os_:
+        if o.kind != "call" or not o.callee:
+            return False
+        try:
+            cb = ctx.facts.body(o.callee)
+        except Exception:
+            return False
+        if cb is None or cb.file != "src/flags.rs":
+            return False
+    return True
+
+
 def _errnos_distinguished(ctx, b):
     T = ctx.tracer
     errs = set()
@@ -660,6 +681,8 @@ def _errnos_distinguished(ctx, b):
             continue
         t = blk.term
         if t.kind == "switch" and t.raw["dty"] == "i32":
+            if _is_flag_arithmetic(ctx, b, blk):
+                continue               # `match flags.access_mode() { Some(O_RDONLY | O_RDWR) => .. }`: open-flag bits, not an errno
             for v in t.raw["vals"]:
                 if 0 < v < 4096:       # errno values; other i32 matches (AT_FDCWD = -100, descriptor numbers) are not errnos
                     errs.add(v)
